@@ -208,8 +208,13 @@ static void exec_op(char *line) {
       if (n) { g->nodeset = n; }
       g->attr->group.dont_merge = (unsigned char) atoi(tok[4]);
       if (nt >= 8) { g->attr->group.kind = (unsigned) atoi(tok[6]); g->attr->group.subkind = (unsigned) atoi(tok[7]); }   /* optional <kind> <subkind> */
+      /* every other Group arrives with application userdata already attached (C02-r7): whatever the merge decides, the userdata of
+       * the objects that were in the topology before the call must not change (checked by pointer in after()) */
+      static int incoming_token;
+      if ((strlen(tok[2]) + (unsigned) atoi(tok[4]) + stepno) & 1) g->userdata = &incoming_token;
       hwloc_obj_t r = hwloc_topology_insert_group_object(topo, g); err = errno;
       ret = r ? (r == g ? 0 : 1) : -1;   /* 0 inserted, 1 merged into an existing object, -1 refused */
+      if (r == g && g->userdata == &incoming_token) g->userdata = NULL;   /* a new object: ours to tag (tag_all) */
     }
   } else if (!strcmp(op, "groupfree")) {
     hwloc_obj_t g = hwloc_topology_alloc_group_object(topo);
